@@ -306,6 +306,17 @@ func Loc(spec string) *time.Location {
 		return nil
 	case spec == "UTC":
 		return time.UTC
+	case strings.HasPrefix(spec, "named:"): // named:<name>:<+HH:MM> - fixed zones that share a NAME and differ in offset
+		rest := spec[len("named:"):]
+		i := strings.LastIndex(rest[:len(rest)-3], ":")
+		name, s := rest[:i], rest[i+1:]
+		sign := 1
+		if s[0] == '-' {
+			sign = -1
+		}
+		h, _ := strconv.Atoi(s[1:3])
+		m, _ := strconv.Atoi(s[4:6])
+		return time.FixedZone(name, sign*(h*3600+m*60))
 	case strings.HasPrefix(spec, "fixed:"):
 		s := spec[len("fixed:"):]
 		sign := 1
@@ -333,7 +344,8 @@ func LocOrUTC(spec string) *time.Location {
 
 // Zones is the pool used by generators.
 var Zones = []string{"", "UTC", "fixed:+05:45", "fixed:-09:30", "fixed:+14:00", "America/New_York", "Europe/London",
-	"Australia/Lord_Howe", "Asia/Kathmandu", "America/Havana", "America/Sao_Paulo"}
+	"Australia/Lord_Howe", "Asia/Kathmandu", "America/Havana", "America/Sao_Paulo",
+	"named:EST:-05:00", "named:EST:+10:00", "named::+03:00", "named::-03:00", "named:UTC:+01:00", "named:America/New_York:+02:00"}
 
 // MidnightOK reports whether local midnight of the civil date exists exactly once in loc and no
 // offset change happens within an hour of it (so "the start of that day" is unambiguous).
